@@ -454,7 +454,7 @@ func phaseLocks(c *ctx) bool {
 	// held segment (nest.go). Runs before the over-capacity phases: a tree with
 	// nested segment locks can hang those for good.
 	lockTrouble := false
-	nNest := r.N(45, 900)
+	nNest := r.N(45, 450)
 	for i := 0; i < nNest; i++ {
 		if !c.mine(i, nNest) {
 			continue
@@ -499,7 +499,7 @@ func phaseLocks(c *ctx) bool {
 	}
 
 	// (3b) tiny-capacity writers: frozen progress + every writer on a mutex = deadlock
-	nTiny := r.N(30, 360)
+	nTiny := r.N(30, 180)
 	for i := 0; i < nTiny; i++ {
 		if !c.mine(i, nTiny) {
 			continue
